@@ -53,6 +53,7 @@ type builder struct {
 	unsupported []string          // leaves of kinds the codec does not support (never expected)
 	ovHit       bool
 
+	track  bool              // record kind/shape of every leaf (else only of the overridden one)
 	rlp    bool              // RLP domain: unsigned integers, non-nil big.Int, RLP boundary lengths
 	curTag reflect.StructTag // tag of the struct field being built
 }
@@ -72,8 +73,16 @@ func h32(s string) uint32 {
 
 // pick decides which alternative a leaf takes: (index, true) when forced or
 // overridden, (-1, false) when the base value applies.
+func (b *builder) setShape(path, shape string) {
+	if b.track || path == b.ovPath {
+		b.shape[path] = shape
+	}
+}
+
 func (b *builder) pick(path, kind string, nAlt, baseIdx int) (int, bool) {
-	b.kind[path] = kind
+	if b.track || path == b.ovPath {
+		b.kind[path] = kind
+	}
 	if v, ok := b.fixed[path]; ok {
 		return v, true
 	}
@@ -102,7 +111,7 @@ func signedAlts(bits int) []intAlt {
 	max := int64(1)<<uint(bits-1) - 1
 	a := []intAlt{{s: min, label: "min"}, {s: -1, label: "minus-one"}, {s: 0, label: "zero"}, {s: 1, label: "one"}}
 	if bits == 64 {
-		a = append(a, intAlt{s: two53, label: "2p53"}, intAlt{s: -two53, label: "minus-2p53"}, intAlt{s: two53 + 1, label: "2p53+1"})
+		a = append(a, intAlt{s: two53, label: "2p53"}, intAlt{s: -two53, label: "minus-2p53"}, intAlt{s: two53 + 1, label: "2p53+1"}, intAlt{s: -max, label: "minus-max"})
 	}
 	return append(a, intAlt{s: max, label: "max"})
 }
@@ -288,10 +297,10 @@ func (b *builder) build(t reflect.Type, path string, depth int) reflect.Value {
 			idx = baseIdx
 		}
 		if idx == 0 {
-			b.shape[path] = "iface-nil"
+			b.setShape(path, "iface-nil")
 			return v
 		}
-		b.shape[path] = "iface-set"
+		b.setShape(path, "iface-set")
 		ct := cts[idx-1]
 		if ct.Kind() == reflect.Ptr {
 			p := reflect.New(ct.Elem())
@@ -321,7 +330,7 @@ func (b *builder) build(t reflect.Type, path string, depth int) reflect.Value {
 					x = alts[len(alts)-1]
 				}
 			}
-			b.shape[path] = fmt.Sprintf("bigint-%dbits", x.BitLen())
+			b.setShape(path, fmt.Sprintf("bigint-%dbits", x.BitLen()))
 			v.Set(reflect.ValueOf(new(big.Int).Set(x)))
 			return v
 		}
@@ -341,10 +350,10 @@ func (b *builder) build(t reflect.Type, path string, depth int) reflect.Value {
 			idx = baseIdx
 		}
 		if idx == 0 {
-			b.shape[path] = "ptr-nil"
+			b.setShape(path, "ptr-nil")
 			return v
 		}
-		b.shape[path] = "ptr-set"
+		b.setShape(path, "ptr-set")
 		p := reflect.New(t.Elem())
 		p.Elem().Set(b.build(t.Elem(), path+"*", depth+1))
 		v.Set(p)
@@ -356,7 +365,7 @@ func (b *builder) build(t reflect.Type, path string, depth int) reflect.Value {
 			var tm time.Time
 			if forced {
 				tm = timeAlts[idx]
-				b.shape[path] = timeLabel[idx]
+				b.setShape(path, timeLabel[idx])
 				if idx == 0 {
 					b.jsonOnly = true
 				}
@@ -371,7 +380,7 @@ func (b *builder) build(t reflect.Type, path string, depth int) reflect.Value {
 				case baseMax:
 					tm = timeMax
 				}
-				b.shape[path] = "time-base"
+				b.setShape(path, "time-base")
 			}
 			v.Set(reflect.ValueOf(tm))
 			return v
@@ -395,15 +404,15 @@ func (b *builder) build(t reflect.Type, path string, depth int) reflect.Value {
 			buf := make([]byte, t.Len())
 			switch idx {
 			case 0:
-				b.shape[path] = "bytearray-zero"
+				b.setShape(path, "bytearray-zero")
 			case 1:
 				fillBytes(buf, hp+uint32(b.base))
-				b.shape[path] = "bytearray-pattern"
+				b.setShape(path, "bytearray-pattern")
 			case 2:
 				for i := range buf {
 					buf[i] = 0xff
 				}
-				b.shape[path] = "bytearray-ff"
+				b.setShape(path, "bytearray-ff")
 			}
 			reflect.Copy(v, reflect.ValueOf(buf))
 			return v
@@ -426,7 +435,7 @@ func (b *builder) build(t reflect.Type, path string, depth int) reflect.Value {
 			} else {
 				n = []int{4, 20, 0, 1025}[b.base]
 			}
-			b.shape[path] = "bytes-len" + strconv.Itoa(n)
+			b.setShape(path, "bytes-len"+strconv.Itoa(n))
 			if n == 0 {
 				// nil and empty are one value for the codec (documented
 				// identification); which of the two is emitted depends on the
@@ -455,7 +464,7 @@ func (b *builder) build(t reflect.Type, path string, depth int) reflect.Value {
 			idx = baseIdx
 		}
 		n := lens[idx]
-		b.shape[path] = "slice-len" + strconv.Itoa(n)
+		b.setShape(path, "slice-len"+strconv.Itoa(n))
 		if n == 0 {
 			if hp%2 == 0 {
 				return v
@@ -475,7 +484,7 @@ func (b *builder) build(t reflect.Type, path string, depth int) reflect.Value {
 		var s string
 		if forced {
 			s = stringAlts[idx]
-			b.shape[path] = fmt.Sprintf("string-alt%d", idx)
+			b.setShape(path, fmt.Sprintf("string-alt%d", idx))
 		} else {
 			switch b.base {
 			case baseA:
@@ -487,7 +496,7 @@ func (b *builder) build(t reflect.Type, path string, depth int) reflect.Value {
 			case baseMax:
 				s = stringAlts[3] + strings.Repeat("z", 300)
 			}
-			b.shape[path] = "string-base"
+			b.setShape(path, "string-base")
 		}
 		v.SetString(s)
 		return v
@@ -499,7 +508,7 @@ func (b *builder) build(t reflect.Type, path string, depth int) reflect.Value {
 			idx = baseIdx
 		}
 		v.SetBool(idx == 1)
-		b.shape[path] = "bool"
+		b.setShape(path, "bool")
 		return v
 
 	case reflect.Int, reflect.Int8, reflect.Int16, reflect.Int32, reflect.Int64:
@@ -526,7 +535,7 @@ func (b *builder) build(t reflect.Type, path string, depth int) reflect.Value {
 			}
 		}
 		v.SetInt(x)
-		b.shape[path] = magShapeSigned(x)
+		b.setShape(path, magShapeSigned(x))
 		return v
 
 	case reflect.Uint, reflect.Uint8, reflect.Uint16, reflect.Uint32, reflect.Uint64:
@@ -556,7 +565,7 @@ func (b *builder) build(t reflect.Type, path string, depth int) reflect.Value {
 			}
 		}
 		v.SetUint(x)
-		b.shape[path] = magShapeUnsigned(x)
+		b.setShape(path, magShapeUnsigned(x))
 		return v
 	}
 	// floats, maps, chans, funcs: declared unsupported by go-wire (README)
@@ -590,10 +599,21 @@ type valueDesc struct {
 type gridValue struct {
 	Desc     valueDesc
 	Root     *rootSpec
-	V        reflect.Value // addressable value of Root.Type
-	Shape    map[string]string
+	V        reflect.Value     // addressable value of Root.Type
+	Shape    map[string]string // of the overridden leaf only; see full()
 	Kind     map[string]string
 	JSONOnly bool
+	base     int
+}
+
+// full returns kind and shape of every leaf (rebuilds the value; only needed
+// to classify a counterexample).
+func (g *gridValue) full() (kind, shape map[string]string) {
+	b := newBuilder(g.base, g.Root.Fixed, g.Desc.Path, g.Desc.Alt)
+	b.rlp = g.Root.RLP
+	b.track = true
+	b.build(g.Root.Type, "", 0)
+	return b.kind, b.shape
 }
 
 func (r *rootSpec) make(base int, ovPath string, ovAlt int) (*gridValue, *builder) {
@@ -608,6 +628,7 @@ func (r *rootSpec) make(base int, ovPath string, ovAlt int) (*gridValue, *builde
 		Shape:    b.shape,
 		Kind:     b.kind,
 		JSONOnly: b.jsonOnly,
+		base:     base,
 	}, b
 }
 
